@@ -228,6 +228,19 @@ class Path:
         if not _has_quant(phi) and not _heavy_len(phi):
             self.qf.add(phi)
 
+    def assume_bg(self, phi):
+        """assume a quantified *background axiom* (theory of an uninterpreted symbol).  Proof obligations see it;
+        branch-feasibility pre-checks leave it out (sound: fewer constraints = more branches look feasible) because
+        confirming a model against quantified axioms is what makes those checks time out."""
+        if not hasattr(self, "bg_ids"):
+            self.bg_ids = set()
+        self.bg_ids.add(phi.get_id())
+        self.pc.append(phi)
+
+    def _feas_pc(self):
+        bg = getattr(self, "bg_ids", ())
+        return [f for f in self.pc if not _heavy_len(f) and f.get_id() not in bg]
+
     def _check(self, extra):
         # identical (pc, goal) pairs recur because every path re-executes the common prefix; z3 terms are
         # hash-consed, so ids identify them
@@ -283,18 +296,35 @@ class Path:
         try:
             if _heavy_len(c):
                 return True
-            if not _has_quant(c):
+            if getattr(self.ver, "feas_fresh", False):
+                # contracts with feas_fresh=True: a fresh (non-incremental) solver over the quantifier-free part of the
+                # path condition; z3's incremental mode is several times slower on datatype/array/string models
+                allf = self._feas_pc()
+                qfs = [f for f in allf if not _has_quant(f)]
+                if not _has_quant(c):
+                    s = z3.Solver()
+                    s.set("timeout", max(4 * self.ver.feas_timeout_ms, 400))
+                    for f in qfs:
+                        s.add(f)
+                    s.add(c)
+                    r = s.check()
+                    if r == z3.unsat:
+                        return False
+                    if r == z3.sat and len(qfs) == len(allf):
+                        return True
+            elif not _has_quant(c):
                 self.qf.push()
                 self.qf.add(c)
                 r = self.qf.check()
                 self.qf.pop()
                 if r == z3.unsat:
                     return False
+                if r == z3.sat and getattr(self, "bg_ids", None) and not any(_has_quant(f) for f in self._feas_pc()):
+                    return True     # a model of everything except background axioms: feasible as far as we check
             s = z3.Solver()
             s.set("timeout", self.ver.feas_timeout_ms)
-            for f in self.pc:
-                if not _heavy_len(f):
-                    s.add(f)
+            for f in self._feas_pc():
+                s.add(f)
             s.add(c)
             return s.check() != z3.unsat
         finally:
@@ -304,6 +334,14 @@ class Path:
             self.ver.queries += 1
             if TRACE and dt > 0.5:
                 print("   [feas %.2fs]" % dt, str(c)[:100])
+                if _os.environ.get("PYVC_DUMPFEAS") and dt > 0.5:
+                    Path._nd = getattr(Path, "_nd", 0) + 1
+                    s2 = z3.Solver()
+                    for f in self.pc:
+                        if not _heavy_len(f):
+                            s2.add(f)
+                    s2.add(c)
+                    open("/tmp/feas_%d.smt2" % Path._nd, "w").write(s2.to_smt2())
 
     def known(self, cond):
         """is cond implied by the path condition? (cheap check; False when not established quickly)"""
